@@ -357,6 +357,11 @@ OUTSIDE_MODEL = {
     "C12q": "fundamental paths moved into numpy arrays behind a `prices` property: the rules follow the stored dictionary of lists only (FC12q is the correct migration)",
     "C14q": "session start times read from a table that is filled with the previous session's length: a running table is refused (FC14q fills it with the running sum, same shape)",
     "C16q": "halt start and halt count turned into properties over a list of halt times: computed state is refused (FC16q reads the last element instead of the first, same shape)",
+    "C17f": "index value memoised per time step with the guard for the still-open step off by one: a getter answering from a table kept on the index market is refused since round 8 (whether a stored value is still current is a question about the guard and the invalidation; before that the report was the one a correctly guarded memo would get)",
+    "C20h": "index value memoised per time step including the still-open step: as C17f",
+    "C03c": "depth view memoised per book and consulted by the executability test: the only effect on the early-return path is inside the test itself; what the memo keeps is refused (C08.R5 refuses the memo too), since its corrected sibling FC08t has the same shape",
+    "C08t": "depth view memoised per book, not dropped by the expiry sweep: stores to an attribute the reference tree does not have are a memo of the view; whether every writer of the queue drops it is not decided (FC08t validates the memo against the queue on every hit)",
+    "C10t": "records dispatched through a table keyed by the exact class: no isinstance chain is left for C10.R5 to read; where an unknown or derived class ends up in a table dispatch is not followed (FC10t falls back to isinstance in the table's order)",
     "C04t": "early exit of the expiry sweep decided from a cached `next expiry` kept beside the index: a reaper decision that reads other state than the index and the clock needs an invariant over every writer of the index, which is not established",
     "C09t": "order / cancel / matching blocks of both phases pulled into one helper with an early return for cancels: the two-phase block structure C09.R2 decides is gone (the helper form is not modelled)",
     "C15t": "time-0 reference price memoised per market on the rule at first use: whether a table entry still equals the market's price at time 0 is not decided (the entry goes stale while step 0 is still trading)",
